@@ -884,8 +884,11 @@ class C24(HexCaseProp):
             if kind != 'VIOL':
                 continue
             cls = f[0]
+            # the same root cause also shows when something later in the input is malformed too (the lenient reference is then 'unsure'):
+            # recognised by the one-shot parse failing exactly at "CRLF after [chunk-ext]" on a chunk-ext followed by SP/HTAB and CRLF
+            bws_site = 'cannot skip CRLF after [chunk-ext]' in ' '.join(f) and re.search(rb';[^\r\n]*[ \t]+\r\n', data) is not None
             if cls in ('seg-dependent:kind:err-vs-ok', 'seg-dependent:kind:err-vs-more') and ref_dechunk(data, self._relaxed)[0] == 'bad' and \
-                    ref_dechunk(data, self._relaxed, True)[0] in ('ok', 'more'):
+                    (ref_dechunk(data, self._relaxed, True)[0] in ('ok', 'more') or bws_site):
                 cls = 'seg-dependent:bws-between-chunk-ext-and-CRLF'
             out.append(Violation('%s:%s' % (self.id, cls), 'case %s input=%s %s' % (case['id'], self.describe_case(case), ' '.join(f[1:])[:700])))
         return out
